@@ -50,6 +50,7 @@ type Loaded struct {
 	ssaPkgs []*ssa.Package
 	cg      *callgraph.Graph
 	cfgs    map[*ast.FuncDecl]*cfg.CFG
+	cfgBodies map[*ast.BlockStmt]*cfg.CFG
 }
 
 var requiredPkgs = []string{
@@ -158,7 +159,16 @@ func (L *Loaded) QName(f *types.Func) string {
 	if f.Pkg() == nil {
 		return f.Name()
 	}
-	return f.Pkg().Name() + "." + shortName(f)
+	return pkgShort(f.Pkg()) + "." + shortName(f)
+}
+
+// pkgShort: last element of the import path (package names are not unique here: alias_trie and ordered_map are both `package parser`).
+func pkgShort(p *types.Package) string {
+	path := p.Path()
+	if i := strings.LastIndex(path, "/"); i >= 0 {
+		return path[i+1:]
+	}
+	return path
 }
 
 func (L *Loaded) Fn(name string) *FuncInfo { return L.byNm[name] }
@@ -209,6 +219,19 @@ func (L *Loaded) CFG(fi *FuncInfo) *cfg.CFG {
 	}
 	g := cfg.New(fi.Decl.Body, func(call *ast.CallExpr) bool { return !L.noReturn(fi.Pkg, call) })
 	L.cfgs[fi.Decl] = g
+	return g
+}
+
+// CFGBody builds (cached) the control-flow graph of an arbitrary function body (declaration or literal).
+func (L *Loaded) CFGBody(pkg *packages.Package, body *ast.BlockStmt) *cfg.CFG {
+	if L.cfgBodies == nil {
+		L.cfgBodies = map[*ast.BlockStmt]*cfg.CFG{}
+	}
+	if g, ok := L.cfgBodies[body]; ok {
+		return g
+	}
+	g := cfg.New(body, func(call *ast.CallExpr) bool { return !L.noReturn(pkg, call) })
+	L.cfgBodies[body] = g
 	return g
 }
 
